@@ -46,12 +46,12 @@ def prod(xs):
 class ViewData:
     """The elements of a numpy view: positions `idx` of the element list `root` of the array that owns the memory.  Reads and
     writes go through to the owner, so in-place updates of a view are seen by every array that shares the memory."""
-    __slots__ = ("root", "idx")
+    __slots__ = ("root", "idx", "owner")
 
-    def __init__(self, root, idx):
+    def __init__(self, root, idx, owner=None):
         if isinstance(root, ViewData):
-            root, idx = root.root, [root.idx[i] for i in idx]
-        self.root, self.idx = root, list(idx)
+            root, idx, owner = root.root, [root.idx[i] for i in idx], root.owner
+        self.root, self.idx, self.owner = root, list(idx), owner      # owner: the array whose memory this is (numpy's .base, chains collapsed)
 
     def __len__(self):
         return len(self.idx)
@@ -549,7 +549,7 @@ class TenSym(PySym):
         if fancy:
             return Ten(shape, [t.data[o] for o in out])      # integer-array indexing copies
         res = Ten(shape, [t.data[o] for o in out])
-        res.data = ViewData(t.data, out)            # basic indexing: a view that shares the memory of t
+        res.data = ViewData(t.data, out, owner=t)            # basic indexing: a view that shares the memory of t
         res.view = True
         return res
 
@@ -707,6 +707,9 @@ class TenSym(PySym):
                     return "<dtype>"
                 if n.attr == "flags":
                     return {"WRITEABLE": True, "C_CONTIGUOUS": True, "OWNDATA": not base.view}
+                if n.attr == "base":
+                    # the array that owns the memory of a view (None for an array that owns its own)
+                    return base.data.owner if isinstance(base.data, ViewData) else None
                 if n.attr == "ctypes":
                     # .ctypes.data: the address of the first element (two arrays that start at the same element of the same memory compare equal)
                     return Obj(data=base.data.address() if isinstance(base.data, ViewData) else ("addr", id(base.data), 0))
@@ -1988,9 +1991,50 @@ class TenSym(PySym):
             if any(c is None for c in cs):
                 return self.extreme(last[-3:], t.data)
             return Rat(Poly.const(max(cs) if last in ("max", "amax") else min(cs)))
+        if cn in ("np.diagonal", "np.diag", "np.trace") and n.args:
+            t = self.to_ten(A(0))
+            if cn == "np.diag" and t.ndim == 1:
+                m_ = t.shape[0]
+                zero_ = Rat(Poly.const(0))
+                return Ten((m_, m_), [t.data[i_] if i_ == j_ else zero_ for i_ in range(m_) for j_ in range(m_)])
+            off = self.pyval(self.kw(n, "offset" if cn != "np.diag" else "k", 1)) or 0
+            ax1 = self.pyval(self.kw(n, "axis1", 2)) if cn != "np.diag" else None
+            ax2 = self.pyval(self.kw(n, "axis2", 3)) if cn != "np.diag" else None
+            ax1 = 0 if ax1 is None else ax1 % t.ndim
+            ax2 = 1 if ax2 is None else ax2 % t.ndim
+            if t.ndim < 2 or ax1 == ax2 or not isinstance(off, int):
+                raise Unsupported("%s of an array of shape %s" % (cn, t.shape))
+            # numpy: the diagonal goes to the last axis, the other axes keep their order
+            rest = [a_ for a_ in range(t.ndim) if a_ not in (ax1, ax2)]
+            i0, j0 = (0, off) if off >= 0 else (-off, 0)
+            ln = max(0, min(t.shape[ax1] - i0, t.shape[ax2] - j0))
+            out, st_ = [], t.strides()
+            for multi in itertools.product(*[range(t.shape[a_]) for a_ in rest]):
+                for d_ in range(ln):
+                    full = [0] * t.ndim
+                    for a_, v_ in zip(rest, multi):
+                        full[a_] = v_
+                    full[ax1], full[ax2] = i0 + d_, j0 + d_
+                    out.append(t.data[sum(i_ * s_ for i_, s_ in zip(full, st_))])
+            r_ = Ten(tuple(t.shape[a_] for a_ in rest) + (ln,), out)
+            if cn == "np.trace":
+                sums = [sum(out[k_ * ln:(k_ + 1) * ln], Rat(Poly.const(0))) for k_ in range(len(out) // ln if ln else 0)]
+                return sums[0] if not rest else Ten(tuple(t.shape[a_] for a_ in rest), sums)
+            return r_
         if cn in ("np.argmin", "np.argmax", "np.argsort"):
             t = self.to_ten(A(0))
             axis = self.kw(n, "axis", 1)
+            cs = [x.const_value() for x in t.data]
+            if t.ndim == 1 and all(c is not None for c in cs):
+                # concrete values (index arrays): numpy's answer - argsort is stable for equal keys whatever `kind` is asked for only with
+                # kind='stable' / 'mergesort'; with distinct keys every kind agrees
+                if cn == "np.argsort":
+                    kind = self.kw(n, "kind", 2)
+                    if len(set(cs)) != len(cs) and self.pyval(kind) not in ("stable", "mergesort"):
+                        raise Unsupported("np.argsort of equal keys without kind='stable': the order is unspecified")
+                    return Ten((len(cs),), [Rat(Poly.const(i_)) for i_ in sorted(range(len(cs)), key=lambda i_: cs[i_])])
+                best = min(cs) if cn == "np.argmin" else max(cs)
+                return Rat(Poly.const(cs.index(best)))
             raise Unsupported("%s depends on the order of symbolic values" % cn)
         raise Unsupported("call %s" % cn)
 
